@@ -210,4 +210,85 @@ def all (m : List Bool) : Bool := m.all id
 /-- element-wise `a < b` -/
 def ltMask (a b : List Int) : List Bool := List.zipWith (fun x y => decide (x < y)) a b
 
+/-! ### arrays over a numeric element type, 2-d arrays, masked arrays
+
+Float arrays of the source are arrays over a type parameter `K` of the generated definition (`[Add K] [Sub K] [Mul K] [OfNat K 0]
+[OfNat K 1] [LT K] [DecidableLT K] [LE K] [DecidableLE K]`: the driver runs them at `Rat`, theorems are over an ordered field; rounding,
+`nan` and `inf` are outside, DESIGN.md §3).  A 2-d array is the list of its rows (`List (List α)`); an array with ZERO rows does not
+know its column count (numpy's shape `(0, k)` is read as `(0, 0)`).  A masked array (`numpy.ma`) is the pair (data, mask). -/
+
+/-- `Option`-valued map (element-wise operations that can raise) -/
+def mapOpt (f : α → Option β) : List α → Option (List β)
+  | [] => some []
+  | x :: xs => match f x with
+    | none => none
+    | some y => match mapOpt f xs with
+      | none => none
+      | some ys => some (y :: ys)
+
+/-- `np.full(n, fill_value=c)` / `np.zeros(n)` / `np.ones(n)` (a negative size raises ValueError) -/
+def full (n : Int) (c : α) : Option (List α) := if n < 0 then none else some (List.replicate n.toNat c)
+/-- `np.full((r, k), c)` / `np.zeros((r, k))` / `np.ones((r, k))` -/
+def full2 (r k : Int) (c : α) : Option (List (List α)) :=
+  if r < 0 ∨ k < 0 then none else some (List.replicate r.toNat (List.replicate k.toNat c))
+/-- `m[i, j]` -/
+def idx2 (m : List (List α)) (i j : Int) : Option α := (idx m i).bind fun row => idx row j
+/-- `m[i, j] = x` -/
+def setIdx2 (m : List (List α)) (i j : Int) (x : α) : Option (List (List α)) :=
+  (idx m i).bind fun row => (setIdx row j x).bind fun row' => setIdx m i row'
+/-- `m[i, :] = c` for a scalar `c` -/
+def setRowConst (m : List (List α)) (i : Int) (c : α) : Option (List (List α)) :=
+  (idx m i).bind fun row => setIdx m i (row.map fun _ => c)
+/-- numpy broadcasting of a 1-d array to a given length: equal length, or a single element repeated; anything else raises -/
+def broadcastTo (r : List α) (len : Nat) : Option (List α) :=
+  if r.length = len then some r else
+  match r with
+  | [x] => some (List.replicate len x)
+  | _ => none
+/-- `m[i, :] = r` for a 1-d array `r` -/
+def setRow (m : List (List α)) (i : Int) (r : List α) : Option (List (List α)) :=
+  (idx m i).bind fun row => (broadcastTo r row.length).bind fun r' => setIdx m i r'
+/-- `m[:, j] = c` for a scalar `c` -/
+def setColConst (m : List (List α)) (j : Int) (c : α) : Option (List (List α)) :=
+  mapOpt (fun row => setIdx row j c) m
+/-- `m ∘ c[:, None]`: the column vector `c[:, None]` (shape `(n, 1)`) broadcast against the `(r, k)` array `m` under an element-wise
+binary operation (`r = n`, or `r = 1`, or `n = 1`; anything else raises) -/
+def bcastCol {γ : Type} (f : α → β → γ) (m : List (List α)) (c : List β) : Option (List (List γ)) :=
+  if m.length = c.length then some (List.zipWith (fun row x => row.map (f · x)) m c) else
+  match m, c with
+  | [row], _ => some (c.map fun x => row.map (f · x))
+  | _, [x] => some (m.map fun row => row.map (f · x))
+  | _, _ => none
+/-- `a.shape` of a 2-d array -/
+def shape2 (m : List (List α)) : Int × Int := ((m.length : Int), ((m.headD []).length : Int))
+
+/-- a 2-d masked array: (data, mask), `true` = masked out -/
+abbrev Masked2 (K : Type) := List (List K) × List (List Bool)
+/-- `ma.array(data, mask=mask)` (shapes must agree: MaskError otherwise) -/
+def maArray {K : Type} (data : List (List K)) (mask : List (List Bool)) : Option (Masked2 K) :=
+  if data.map List.length = mask.map List.length then some (data, mask) else none
+/-- the cells (value, masked) of a masked array in row-major (C) order -/
+def maCells {K : Type} (a : Masked2 K) : List (K × Bool) := (List.zipWith List.zip a.1 a.2).flatten
+/-- one step of the first-minimum scan: `b` = (least unmasked value, its flat index) so far, `k` the flat index of `x` -/
+def argminStep {K : Type} [LT K] [DecidableLT K] (b : Option (K × Nat)) (x : K × Bool) (k : Nat) : Option (K × Nat) :=
+  if x.2 then b else
+  match b with
+  | none => some (x.1, k)
+  | some (cb, kb) => if x.1 < cb then some (x.1, k) else some (cb, kb)
+def argminFrom {K : Type} [LT K] [DecidableLT K] : List (K × Bool) → Nat → Option (K × Nat) → Option (K × Nat)
+  | [], _, b => b
+  | x :: xs, k, b => argminFrom xs (k + 1) (argminStep b x k)
+/-- `a.argmin()` of a masked array without `axis`: the flat (row-major) index of the FIRST least unmasked cell; `0` when every cell
+is masked (numpy fills the masked cells with the largest value of the dtype and takes the plain `argmin`); raises on an empty array -/
+def maArgmin {K : Type} [LT K] [DecidableLT K] (a : Masked2 K) : Option Int :=
+  if (maCells a).isEmpty then none else
+  match argminFrom (maCells a) 0 none with
+  | none => some 0
+  | some (_, k) => some (k : Int)
+/-- `np.unravel_index(k, (r, c))` for a 2-d shape (an index outside `0 ≤ k < r * c` raises ValueError) -/
+def unravelIndex (k : Int) (shape : Int × Int) : Option (Int × Int) :=
+  if 0 ≤ k ∧ k < shape.1 * shape.2 then
+    some (((k.toNat / shape.2.toNat : Nat) : Int), ((k.toNat % shape.2.toNat : Nat) : Int))
+  else none
+
 end Py
